@@ -165,6 +165,8 @@ pub fn real_templates(n: u32) -> Vec<(&'static str, Configuration<Sphere>)> {
             ("real_mu_plus_lambda_es", es::real_mu_plus_lambda_es::<Sphere, ()>(es::RealProblemParameters { population_size: 4, lambda: 8, deviation: 0.3 }, cond(n)).unwrap()),
             ("real_de", de::real_de(de::RealProblemParameters { population_size: 8, y: 1, f: 0.5, pc: 0.8 }, cond(n)).unwrap()),
             ("real_fa", fa::real_fa(fa::RealProblemParameters { pop_size: 5, alpha: 0.25, beta: 1.0, gamma: 1.0, delta: 0.97 }, cond(n)).unwrap()),
+            // no randomisation and no attraction: every firefly "move" is exactly zero (still one evaluation per comparison)
+            ("real_fa[still]", fa::real_fa(fa::RealProblemParameters { pop_size: 4, alpha: 0.0, beta: 0.0, gamma: 1.0, delta: 0.97 }, cond(n)).unwrap()),
             ("real_bh", bh::real_bh(bh::RealProblemParameters { num_particles: 6 }, cond(n)).unwrap()),
             ("real_rw", rw::real_rw(rw::RealProblemParameters { deviation: 0.3 }, cond(n)).unwrap()),
             ("real_rs", rs::real_rs(cond(n)).unwrap()),
@@ -333,6 +335,7 @@ fn prescribed_size(name: &str) -> Option<(usize, usize)> {
         "real_ga[odd]" => (7, 7),
         "real_pso" | "real_bh" => (6, 6),
         "real_fa" => (5, 5),
+        "real_fa[still]" => (4, 4),
         "real_mu_plus_lambda_es" => (4, 4),
         "real_iwo" => (1, 8),
         "real_sa" | "permutation_sa" | "real_ls" | "permutation_ls" | "real_ils" | "permutation_ils" | "real_rw" | "permutation_random_walk" | "real_rs" | "permutation_rs" => (1, 1),
